@@ -218,6 +218,46 @@ def run_detect_oracle(outcome, tier, seed):
         outcome.add_sample({"input_hex": short_hex(data), "detected": resps[base].get("detected"), "sched": sched})
 
 
+def shared_prefix(a_hex, b_hex):
+    a = "" if a_hex in ("-", None) else a_hex
+    b = "" if b_hex in ("-", None) else b_hex
+    return a.startswith(b) or b.startswith(a)
+
+
+def run_interrupt_oracle(outcome, tier, seed):
+    """A read that fails once with ErrorKind::Interrupted and changes nothing: the source did report an I/O error, so the
+    property lets the run fail (xt's YAML path does not retry, and a trial may then answer 'not this format'); what it never
+    allows is a translator that sees other bytes than the stream's: a run that SUCCEEDS must give the uninterrupted output,
+    and one that fails must have written a prefix of it."""
+    docs = [b'{"a":[1,2,3],"b":"xyzw"}\n{"c":null}\n', b"a: [1, 2]\nb: {c: d}\n---\n- x\n", corpus.mp({"a": [1, 2, 3], "b": "xyzw"}) + corpus.mp([1, {"k": "v"}]),
+            b'a = 1\n[t]\nb = "x"\n', "\u078b: \u078b\n".encode(), b"\xff\xfe" + "k: \u00e9\n".encode("utf-16-le"), b'  [1, 2.5, "three"]  ']
+    reqs, meta = [], []
+    for data in docs:
+        for sched in ({"kind": "fixed", "n": 1}, {"kind": "fixed", "n": 5}, {"kind": "fixed", "n": 8192}):
+            for to in (("json", "msgpack") if tier == "quick" else corpus.FORMATS):
+                base = len(reqs)
+                reqs.append({"id": base, "to": to, "calls": [{"input": data.hex(), "from": None, "mode": "reader", "sched": sched}]})
+                n_calls = min(len(data) // sched["n"] + 4, 48 if tier == "thorough" else 24)
+                for k in range(n_calls):
+                    reqs.append({"id": len(reqs), "to": to, "calls": [{"input": data.hex(), "from": None, "mode": "reader", "sched": sched, "rintr": k}]})
+                meta.append((data, sched, to, base, n_calls))
+    resps = common.harness_batch(reqs)
+    for data, sched, to, base, n_calls in meta:
+        free = result_of(resps[base])
+        for k in range(n_calls):
+            r = result_of(resps[base + 1 + k])
+            altered = (r[0] == "ok" and (free[0] != "ok" or r[2] != free[2])) or r[0] == "crash" or \
+                (r[0] == "err" and not shared_prefix(r[2], free[2]))
+            if altered:
+                outcome.oracle_failures.append({"what": "after a read interrupted once (ErrorKind::Interrupted at read call %d, nothing consumed) the translator "
+                                                        "sees other bytes than the stream's: the run succeeds with another output, or wrote something that is "
+                                                        "not a prefix of the uninterrupted output" % k, "input_hex": data.hex(), "sched": sched, "to": to, "interrupted_call": k,
+                                                "uninterrupted": free, "observed": r})
+                break
+    outcome.evaluations += len(reqs)
+    outcome.extra["interrupted_read_oracle"] = {"requests": len(reqs), "inputs": len(docs), "read_sizes": [1, 5, 8192]}
+
+
 def run(outcome, tier, seed):
     outcome.rule = ("handle programs: enumerated/seeded as described under handle_programs.bound; non-trivial = a reader "
                     "handle over non-empty data with at least one read or prefix that returned bytes, counted over distinct "
@@ -229,6 +269,7 @@ def run(outcome, tier, seed):
         from props import c10
         c10.run_order_correspondence(outcome, tier, seed)
         run_detect_oracle(outcome, tier, seed)
+        run_interrupt_oracle(outcome, tier, seed)
     else:
         outcome.notes.append("verif hooks unavailable: hook-level correspondence not run")
 
